@@ -150,6 +150,9 @@ def f64Nat (n : Nat) : Nat :=
     let q' := if r > half ∨ (r = half ∧ q % 2 = 1) then q + 1 else q
     q' <<< e
 
+/-- Digit strings denoting `2^1023` or more are left alone (they may round to `inf`). -/
+def f64Over : Nat := 2 ^ 1023
+
 /-- Characters that can occur in no text `float()` accepts (printable ASCII other than digits,
     `.`, `,` (replaced by `.` before the call), exponent letters, signs, `_`). -/
 def floatHopeless (c : Char) : Bool :=
@@ -171,7 +174,7 @@ def fltField : Option (List Char) → FV
   | none => .absent
   | some ds =>
     if ds ≠ [] ∧ ds.all isDig then
-      (if digitsVal ds < 2 ^ 1023 then .val (f64Nat (digitsVal ds)) else .out)
+      (if digitsVal ds < f64Over then .val (f64Nat (digitsVal ds)) else .out)
     else if ds.any floatHopeless then .bad
     else .out
 
@@ -186,31 +189,18 @@ inductive PR where
   deriving DecidableEq, Repr
 
 /-- The keyword arguments collected for `Duration(**result_map)` (absent = the default 0). -/
-structure Fields where
-  y : Int := 0
-  mo : Int := 0
-  w : Int := 0
-  d : Int := 0
-  h : Int := 0
-  mi : Int := 0
-  s : Int := 0
-  deriving DecidableEq, Repr
+abbrev Fields := DUnit → Int
 
-def Fields.set (f : Fields) : DUnit → Int → Fields
-  | .years, v => { f with y := v }
-  | .months, v => { f with mo := v }
-  | .weeks, v => { f with w := v }
-  | .days, v => { f with d := v }
-  | .hours, v => { f with h := v }
-  | .minutes, v => { f with mi := v }
-  | .seconds, v => { f with s := v }
+def Fields.zero : Fields := fun _ => 0
+def Fields.set (f : Fields) (n : DUnit) (v : Int) : Fields := fun x => if x = n then v else f x
 
 /-- `if key in ["years", "months", "days", "weeks"]: int(value) else: float(value)`. -/
 def _root_.IsoDT.Gen.DUnit.isIntKey : DUnit → Bool
   | .years | .months | .days | .weeks => true
   | _ => false
 
-def Fields.toDur (m : Mode) (f : Fields) : Dur := mkDur m f.y f.mo f.w f.d f.h f.mi f.s
+def Fields.toDur (m : Mode) (f : Fields) : Dur :=
+  mkDur m (f .years) (f .months) (f .weeks) (f .days) (f .hours) (f .minutes) (f .seconds)
 
 /-- The loop over `result_map.items()` (group order); the first failing conversion decides. -/
 def convert (sg : Int) (cp : Caps) : List DUnit → Fields → Except PR Fields
@@ -277,7 +267,7 @@ def altPath (m : Mode) (rest : List Char) : PR :=
 def parseBody (m : Mode) (sg : Int) (e : List Char) : PR :=
   match firstMatch durRegexes e with
   | some (gs, cp) =>
-    match convert sg cp gs {} with
+    match convert sg cp gs Fields.zero with
     | .ok f => .ok (f.toDur m)
     | .error r => r
   | none =>
